@@ -5,16 +5,18 @@ usage from a property's check file:  import _lend;  return _lend.run(c, need=[..
 import json, os, re
 import vlib
 
-UNPREDICTED = ["Tick", "Bid", "Kill"]
+UNPREDICTED = ["Tick", "Bid", "Kill", "LiquidateV1", "BidV1"]
 TIERS = {
-    "quick": dict(profiles=[("same", 4), ("cross", 4), ("multi", 4), ("twopool", 5)], runs_s=12, runs_b=3, steps=170),
-    "thorough": dict(profiles=[("same", 6), ("cross", 5), ("multi", 5), ("twopool", 6)], runs_s=150, runs_b=40, steps=300),
+    "quick": dict(profiles=[("same", 4), ("cross", 4), ("multi", 4), ("twopool", 5)], runs_s=12, runs_b=3, runs_v1=4, steps=170),
+    "thorough": dict(profiles=[("same", 6), ("cross", 5), ("multi", 5), ("twopool", 6)], runs_s=150, runs_b=40, runs_v1=60, steps=300),
 }
 NEED = {
     "C08": ["released", "releasedBridged", "releasedWithInterest", "atBoundary", "rejectedLoans", "withdrawnWithPledge", "repaid",
             "handedOver", "rewardPaid", "stableBorrowed", "walked", "confOkSteps", "drawn"],
-    "C09": ["seizures", "sweepSeizures", "bridgedSeizures", "bridged2Seizures", "safeLiquidateRequests", "nearSafeRequests", "nearSafeBridged2", "killedSteps", "blocks", "longWaits"],
-    "C10": ["okBids", "partialBids", "closingBids", "oversizedBids", "priceChecks", "bridgedCloses", "ownerRefunds", "auctionBlocks", "restarts"],
+    "C09": ["seizures", "sweepSeizures", "bridgedSeizures", "bridged2Seizures", "safeLiquidateRequests", "nearSafeRequests", "nearSafeBridged2", "killedSteps", "blocks", "longWaits",
+            "v1Seizures", "v1SweepSeizures", "v1SafeRequests", "v1KilledSteps"],
+    "C10": ["okBids", "partialBids", "closingBids", "oversizedBids", "priceChecks", "bridgedCloses", "ownerRefunds", "auctionBlocks", "restarts",
+            "v1Bids", "v1PartialBids", "v1ClosingBids", "v1OversizedClosing", "v1Recreated", "v1AuctionBlocks", "v1Restarts"],
 }
 
 
@@ -50,7 +52,7 @@ def produce(c, binhash):
             vlib.log(vlib.tlc_error_text(dev["out"]))
             raise vlib.NoVerdict("model run for the named deviation failed")
         # ---- real code: walk every model transition, then seeded drives; TLC judges every recorded node ----
-        jobs.append(("drive", ["--runs-small", str(t["runs_s"]), "--runs-big", str(t["runs_b"]), "--steps", str(t["steps"])]))
+        jobs.append(("drive", ["--runs-small", str(t["runs_s"]), "--runs-big", str(t["runs_b"]), "--runs-v1", str(t["runs_v1"]), "--steps", str(t["steps"])]))
         logs, stats, samples = [], {}, []
         walked = tstates = allnodes = 0
         for name, args in jobs:
@@ -115,4 +117,5 @@ def run(c, need=None):
                      "asset rate parameters have non-zero stable-rate parameters (the all-zero case divides by zero in interest calculation: reported separately)",
                      "a block whose hooks panic is not judged (it would halt the chain; C15)",
                      "the circuit breaker is toggled through the esm keeper setter (admin check is C12)",
-                     "C09/C10: lend-initiated V2 liquidations and Dutch auctions only (vault side: harbor family; V1 generation not driven here)"])
+                     "C09/C10: lend-initiated liquidations and Dutch auctions of both generations (vault side: harbor family); the first-generation begin blockers are not wired into the app and are called directly after each block (as the repository's tests do), so no liveness bound is stated for the first-generation sweep",
+                     "after a first-generation locked vault has been overwritten (known finding C09-v1-locked-vault-id-counter-regresses) the rest of that behaviour is not judged"])
